@@ -2321,6 +2321,14 @@ func (t *Topic) replySetDesc(sess *Session, asUid types.Uid, asChan bool,
 			return err
 		}
 
+		if set.Desc.Private != nil && (t.cat == types.TopicCatGrp || t.cat == types.TopicCatP2P) {
+			if pud, ok := t.perUser[asUid]; !ok || pud.deleted {
+				// Private data belongs to a subscription: a user who is not subscribed has none.
+				sess.queueOut(ErrPermissionDeniedReply(msg, now))
+				return errors.New("attempt to assign private data without a subscription")
+			}
+		}
+
 		sendPriv = assignGenericValues(sub, "Private", t.perUser[asUid].private, set.Desc.Private)
 	}
 
